@@ -31,6 +31,9 @@ json Chunk::to_json() const
 		e.push_back(k.vt);
 		e.push_back(k.depth);
 		e.push_back(k.kv ? 1 : 0);
+		e.push_back(to_json_bytes(k.opt));
+		if (k.has_dec)
+			e.push_back(to_json_bytes(k.dec));
 		ts.push_back(e);
 	}
 	j["toks"] = ts;
@@ -395,12 +398,19 @@ struct Builder {
 			raw(r.chance(1, 2) ? " " : "");
 		}
 	}
+	std::string cur_opt;
 	void tok(const std::string &text, const std::string &role, const std::string &vt = "")
 	{
 		size_t s = c.t.size();
 		raw(text);
 		Tok t{s, c.t.size(), role, vt, depth, false, kv_depth > 0};
+		t.opt = cur_opt;
 		c.toks.push_back(t);
+	}
+	void set_dec(const std::string &d)
+	{
+		c.toks.back().dec = d;
+		c.toks.back().has_dec = true;
 	}
 	void sep()
 	{
@@ -432,17 +442,28 @@ static void emit_value(Builder &b, const json &o, bool last = false)
 		if (v.empty())
 			v = "v";
 		b.tok(encode_string(r, v, r.chance(1, 2) ? 0 : 2), "v", "any");
-	} else if (t == "int")
+		b.set_dec(v);
+	} else if (t == "int") {
 		b.tok(gen_int_literal(r, nullptr), "v", "int");
-	else if (t == "float")
+		b.set_dec(b.c.t.substr(b.c.toks.back().s));
+	} else if (t == "float") {
 		b.tok(gen_float_literal(r), "v", "float");
-	else if (t == "bool")
+		b.set_dec(b.c.t.substr(b.c.toks.back().s));
+	} else if (t == "bool") {
 		b.tok(gen_bool_literal(r), "v", "bool");
-	else {
+		b.set_dec(b.c.t.substr(b.c.toks.back().s));
+	} else {
 		std::string v = gen_string_value(r, b.g.hostile);
-		std::string enc = encode_string(r, v, -1);
 		if (!b.g.multiline) {
 			// keep strings on one line
+			std::string v2;
+			for (char ch : v)
+				if (ch != '\n')
+					v2 += ch;
+			v = v2;
+		}
+		std::string enc = encode_string(r, v, -1);
+		if (!b.g.multiline) {
 			std::string e2;
 			for (char ch : enc)
 				if (ch != '\n')
@@ -450,6 +471,7 @@ static void emit_value(Builder &b, const json &o, bool last = false)
 			enc = e2;
 		}
 		b.tok(enc, "v", "str");
+		b.set_dec(v);
 	}
 	b.c.toks.back().lastv = last;
 }
@@ -483,6 +505,13 @@ static void emit_item(Builder &b, const json &o)
 	std::string t = o["t"].get<std::string>();
 	int fl = o.value("fl", 0);
 	std::string name = case_variant(r, o["n"].get<std::string>(), b.g.ctx_flags);
+	std::string saved_opt = b.cur_opt;
+	b.cur_opt = o["n"].get<std::string>();
+	struct Restore {
+		Builder &b;
+		std::string s;
+		~Restore() { b.cur_opt = s; }
+	} restore{b, saved_opt};
 	if (t == "sec") {
 		b.tok(name, "n", "sec");
 		if (fl & F_TITLE) {
@@ -526,12 +555,20 @@ static void emit_item(Builder &b, const json &o)
 					b.ws();
 				}
 				std::string v = gen_string_value(r, b.g.hostile, 6);
+				if (!b.g.multiline) {
+					std::string v2;
+					for (char ch : v)
+						if (ch != '\n')
+							v2 += ch;
+					v = v2;
+				}
 				std::string enc = encode_string(r, v, -1);
 				std::string e2;
 				for (char ch : enc)
 					if (ch != '\n' || b.g.multiline)
 						e2 += ch;
 				b.tok(e2, "a", "str");
+				b.set_dec(v);
 			}
 		}
 		b.tok(")", "p", "fclose");
@@ -571,13 +608,18 @@ static void emit_items(Builder &b, const json &opts, int budget, bool kv_section
 	for (int i = 0; i < budget; i++) {
 		if (kv_section && r.chance(2, 3)) {
 			// free-form key = value
-			b.tok(r.pick(KEY_POOL), "n", "kv");
+			std::string key = r.pick(KEY_POOL);
+			std::string saved = b.cur_opt;
+			b.cur_opt = key;
+			b.tok(key, "n", "kv");
 			b.sep();
 			b.tok("=", "o", "");
 			b.sep();
 			std::string v = gen_string_value(r, b.g.hostile, 8);
 			b.tok(encode_string(r, v, -1), "v", "str");
+			b.set_dec(v);
 			b.c.toks.back().lastv = true;
+			b.cur_opt = saved;
 		} else {
 			if (opts.empty())
 				break;
